@@ -242,15 +242,36 @@ def check(ctx, replay=None):
     # ---- lint: no hidden state in the headers ----
     statics = []
     for p in vc.files_under(os.path.join(vc.REPO, "include"), (".hpp",)):
-        guarded = False
-        for i, l in enumerate(open(p, errors="replace"), 1):
-            if "#ifdef POPS_CORE_VERIF" in l:
-                guarded = True
-            elif l.startswith("#endif"):
-                guarded = False
-            s = l.strip()
-            if re.match(r"(inline\s+)?static\s+(?!const|constexpr|inline\s+const|std::vector<std::string>\s+names|bool\s+can_disperser|HostPool|.*\()", s) and not guarded and "static const" not in s and "static constexpr" not in s:
-                statics.append("%s:%d: %s" % (os.path.basename(p), i, s[:80]))
+        txt = open(p, errors="replace").read()
+        # drop the guarded instrumentation and comments (keeping line numbers)
+        txt = re.sub(r"#ifdef POPS_CORE_VERIF.*?#endif", lambda m: "\n" * m.group(0).count("\n"), txt, flags=re.S)
+        txt = re.sub(r"/\*.*?\*/", lambda m: "\n" * m.group(0).count("\n"), txt, flags=re.S)
+        txt = re.sub(r"//[^\n]*", "", txt)
+        if os.path.basename(p) == "verif_hooks.hpp":
+            continue
+        for m in re.finditer(r"(?<![A-Za-z_0-9])static\s+(?!_cast|cast)", txt):
+            if re.match(r"static_cast|static_assert", txt[m.start():m.start() + 14]):
+                continue
+            # the declaration runs to the first ';' or '{' outside parentheses and template brackets
+            i, depth, has_paren = m.end(), 0, False
+            while i < len(txt):
+                ch = txt[i]
+                if ch == "(":
+                    depth += 1
+                    has_paren = True
+                elif ch == ")":
+                    depth -= 1
+                elif depth == 0 and ch in ";{=":
+                    break
+                i += 1
+            decl = " ".join(txt[m.start():i].split())
+            term = txt[i] if i < len(txt) else ";"
+            if has_paren and term == "{":
+                continue            # a static member / free function with a body: no state
+            if re.search(r"\b(const|constexpr)\b", decl.split("(")[0]):
+                continue            # immutable
+            line = txt.count("\n", 0, m.start()) + 1
+            statics.append("%s:%d: %s;" % (os.path.basename(p), line, decl[:80]))
     # a function-local static that is only ever handed out as a reference to const is not state
     harmless = [x for x in statics if re.search(r"network\.hpp:\d+: static std::set<NodeId> empty;", x)]
     statics = [x for x in statics if x not in harmless]
